@@ -10,6 +10,9 @@ CONSTANTS
   TwoPub = FALSE
   MaxPub = 2
   MaxBatch = 2
+  MinBatch = 1
+  PubClosed = FALSE
+  MaxAhead = 0
   MaxJoin = 2
   AtPos = {}
   MaxKick = 1
